@@ -311,14 +311,24 @@ def worker():
             vals.append((spec, ft.datetime(lit.ev(spec))))
         except Exception:  # noqa: BLE001
             pass
-    for order in ("fwd", "rev"):
-        seq = vals if order == "fwd" else vals[::-1]
+    for order in ("fwd", "rev", "unset-first"):
+        seq = vals if order != "rev" else vals[::-1]
         # two record types alternate; their timestamp fields have different names
         recs_ = [(desc(ts=x, _generated=gen) if i % 2 == 0 else wdesc(when=x, note="n", _generated=gen)) for i, (_, x) in enumerate(seq)]
+        lead = []
+        if order == "unset-first":
+            # the first record of each type has NO timestamp: whatever a writer derives from the first record of a type (column
+            # affinity, a converter, a schema default) must not decide how the timestamps of later records are stored
+            lead = [desc(ts=None, _generated=gen), wdesc(when=None, note="n", _generated=gen)]
+            recs_ = lead + recs_
 
         def judge_seq(fmt, got, keep, same_offset=True):
             res = {"spec": "seq:" + order, "form": fmt, "viol": [], "h": {}}
             want = [seq[i] for i in keep]
+            if lead:
+                if sum(1 for g in got if g is None) != (len(lead) if fmt != "avro" else 1):
+                    res["viol"].append(["%s:sequence:unset-timestamps-read-back-as-values" % fmt, {"unset_read": sum(1 for g in got if g is None)}])
+                got = [g for g in got if g is not None]
             if len(got) != len(want):
                 res["viol"].append(["%s:sequence:count" % fmt, {"read": len(got), "written": len(want)}])
             for (spec, x), g in zip(want, got):
@@ -379,6 +389,8 @@ def worker():
                 except OverflowError:
                     pass
             w = RecordWriter(path)
+            if lead:
+                w.write(lead[0])
             for i in keep:
                 w.write(desc(ts=seq[i][1], _generated=gen))  # (an Avro file holds one record type)
             w.flush()
